@@ -264,3 +264,216 @@ Section GenIsModel.
     exact (rg_entry_is_model (rot_x P (ax x0) (ay y0)) (rot_y P (ax x0) (ay y0)) k HX HY Hk).
   Qed.
 End GenIsModel.
+
+(** ** Part 3: what the generated row holds - over every field, every rounding of the coordinates, every split *)
+Lemma rg_list_of_length {A} (l : list A) it : valid_it it -> Z.of_nat (length l) = it ->
+  (it = 1 /\ exists a, l = [a]) \/ (it = 2 /\ exists a b, l = [a; b]) \/ (it = 3 /\ exists a b c, l = [a; b; c]) \/
+  (it = 4 /\ exists a b c d, l = [a; b; c; d]).
+Proof.
+  intros Hv Hl.
+  destruct l as [|a [|b [|c [|d [|e l]]]]]; cbn [length] in Hl; destruct Hv as [Hv|[Hv|[Hv|Hv]]]; subst it; try lia.
+  - left. split; [reflexivity|]. eexists. reflexivity.
+  - right. left. split; [reflexivity|]. do 2 eexists. reflexivity.
+  - right. right. left. split; [reflexivity|]. do 3 eexists. reflexivity.
+  - right. right. right. split; [reflexivity|]. do 4 eexists. reflexivity.
+Qed.
+
+Section GenRowFacts.
+  Variable K : Fld.
+  Add Field KFg : (@Fth K).
+  Variable rd : K -> K.
+  Variable ipart : K -> Z.
+  Variable fpart : K -> K.
+  Local Open Scope F_scope.
+  Local Open Scope Z_scope.
+  Let idK : K -> K := fun x => x.
+
+  Variables (xs ys it : Z) (x1 y1 : Z) (xf yf : K).
+  Hypothesis Hv : valid_it it.
+
+  (** every stencil point of the grid point inside the grid *)
+  Definition rg_interior : Prop :=
+    forall i1 j1, 0 <= i1 < it -> 0 <= j1 < it ->
+      (wrap32 (x1 + i1 - centre it) <? xs) && (wrap32 (y1 + j1 - centre it) <? ys) = true.
+
+  Lemma rg_entry_interior i1 j1 : rg_interior -> 0 <= i1 < it -> 0 <= j1 < it ->
+    rg_entry K idK xs ys it x1 y1 xf yf i1 j1 =
+    (wrap32 (wrap32 (x1 + i1 - centre it) * ys + wrap32 (y1 + j1 - centre it)),
+     (rx_nth (coeffs it xf) i1 * rx_nth (coeffs it yf) j1)%F).
+  Proof. intros Hin Hi Hj. unfold rg_entry. cbv zeta. rewrite (Hin i1 j1 Hi Hj). reflexivity. Qed.
+
+  (** slot i1*it+j1 carries the weight icq[i1]*icp[j1]: the weights of the row, in slot order, are the tensor
+      product (x weights) x (y weights) of the hand-written model *)
+  Lemma rg_weights_tensor : rg_interior ->
+    map (fun k => snd (rg_entry K idK xs ys it x1 y1 xf yf (k / it) (k mod it))) (zrange (it * it)) = rot_weights it xf yf.
+  Proof.
+    intros Hin.
+    assert (E : forall k, 0 <= k < it * it ->
+              snd (rg_entry K idK xs ys it x1 y1 xf yf (k / it) (k mod it)) =
+              (rx_nth (coeffs it xf) (k / it) * rx_nth (coeffs it yf) (k mod it))%F).
+    { intros k Hk. destruct (rg_split_slot it k Hv Hk) as [_ [Hi Hj]]. rewrite (rg_entry_interior _ _ Hin Hi Hj). reflexivity. }
+    rewrite (map_ext_in _ (fun k => (rx_nth (coeffs it xf) (k / it) * rx_nth (coeffs it yf) (k mod it))%F)).
+    2:{ intros k Hk. apply E. unfold zrange in Hk. apply in_map_iff in Hk. destruct Hk as [n [En Hn]]. apply in_seq in Hn. lia. }
+    unfold rot_weights. clear E.
+    pose proof (coeffs_length K it xf Hv) as Lx. pose proof (coeffs_length K it yf Hv) as Ly.
+    revert Lx Ly. generalize (coeffs it xf), (coeffs it yf). intros a b Lx Ly.
+    destruct (rg_list_of_length a it Hv Lx) as [[Ei Ha]|[[Ei Ha]|[[Ei Ha]|[Ei Ha]]]];
+      destruct (rg_list_of_length b it Hv Ly) as [[Ej Hb]|[[Ej Hb]|[[Ej Hb]|[Ej Hb]]]]; try lia;
+      repeat match goal with H : exists _, _ |- _ => destruct H end; subst a b; rewrite Ei; reflexivity.
+  Qed.
+
+  Theorem rg_weights_unity : rg_interior ->
+    fsum (map (fun k => snd (rg_entry K idK xs ys it x1 y1 xf yf (k / it) (k mod it))) (zrange (it * it))) = 1%F.
+  Proof. intros Hin. rewrite (rg_weights_tensor Hin). apply rot_weights_unity. exact Hv. Qed.
+
+  Theorem rg_poly_reproduction (k l : nat) (X Y : K) : rg_interior -> Z.of_nat k < it -> Z.of_nat l < it ->
+    fdot (map (fun s => snd (rg_entry K idK xs ys it x1 y1 xf yf (s / it) (s mod it))) (zrange (it * it)))
+         (tensor (nodes K it X k) (nodes K it Y l)) = (fpow (X + xf) k * fpow (Y + yf) l)%F.
+  Proof. intros Hin Hk Hl. rewrite (rg_weights_tensor Hin). apply rot_poly_reproduction; assumption. Qed.
+
+  (** every index of the row addresses the xs*ys grid (the fallback entry is index 0): C17 flavour *)
+  Theorem rg_entry_in_bounds (rw : K -> K) i1 j1 : 0 < xs -> 0 < ys ->
+    0 <= fst (rg_entry K rw xs ys it x1 y1 xf yf i1 j1) < xs * ys.
+  Proof.
+    intros Hx Hy. unfold rg_entry. cbv zeta.
+    pose proof (rg_wrap32_range (x1 + i1 - centre it)) as Hi. pose proof (rg_wrap32_range (y1 + j1 - centre it)) as Hj.
+    generalize dependent (wrap32 (x1 + i1 - centre it)). intros i0 Hi.
+    generalize dependent (wrap32 (y1 + j1 - centre it)). intros j0 Hj.
+    destruct ((i0 <? xs) && (j0 <? ys)) eqn:Hr; cbn [fst]; [|nia].
+    assert (Hm : i0 * ys <= (xs - 1) * ys) by (apply Z.mul_le_mono_nonneg_r; lia).
+    assert (Hn : 0 <= i0 * ys) by (apply Z.mul_nonneg_nonneg; lia).
+    pose proof (rg_wrap32_range (i0 * ys + j0)).
+    assert (wrap32 (i0 * ys + j0) <= i0 * ys + j0) by (unfold wrap32; apply Z.mod_le; lia).
+    lia.
+  Qed.
+End GenRowFacts.
+
+(** ** zero angle: the map is the identity (exact arithmetic, axes of the generated Ruler) *)
+From Inovesa Require Import Gen.Gen_Ruler.
+
+Section ZeroAngle.
+  Variable K : Fld.
+  Add Field KFz : (@Fth K).
+  Variable ipart : K -> Z.
+  Variable fpart : K -> K.
+  Local Open Scope F_scope.
+  Local Open Scope Z_scope.
+  Let idK : K -> K := fun x => x.
+  (** the split of a float that holds an integer *)
+  Hypothesis Hip : forall z, ipart (fz z) = z.
+  Hypothesis Hfp : forall z, fpart (fz z) = 0%F.
+
+  Lemma rg_trig_zero (cosf sinf : K -> K) : cosf 0%F = 1%F -> sinf 0%F = 0%F ->
+    gen_rot_ctor_cos_dt K cosf 0%F = 1%F /\ gen_rot_ctor_sin_dt K sinf 0%F = 0%F.
+  Proof.
+    intros Hc Hs. unfold gen_rot_ctor_cos_dt, gen_rot_ctor_sin_dt.
+    assert (E : (- (@f0 K))%F = @f0 K) by ring. rewrite E. split; assumption.
+  Qed.
+
+  Lemma rg_c1_zero (at0 at1 : Z -> K) d0 d1 z0 z1 x0 y0 :
+    gen_rot_c1 K idK 1%F 0%F at0 at1 d0 d1 z0 z1 x0 y0 = (at0 x0 / d0 + z0)%F.
+  Proof.
+    unfold gen_rot_c1, idK. assert (E : (1 * at0 x0 - 0 * at1 y0)%F = at0 x0) by ring. rewrite E. reflexivity.
+  Qed.
+  Lemma rg_c2_zero (at0 at1 : Z -> K) d0 d1 z0 z1 x0 y0 :
+    gen_rot_c2 K idK 1%F 0%F at0 at1 d0 d1 z0 z1 x0 y0 = (at1 y0 / d1 + z1)%F.
+  Proof.
+    unfold gen_rot_c2, idK. assert (E : (0 * at0 x0 + 1 * at1 y0)%F = at1 y0) by ring. rewrite E. reflexivity.
+  Qed.
+
+  (** the generated Ruler: at(i) / delta + zerobin = i *)
+  Lemma rg_ruler_cell (steps mn mx : K) (i : K) : (mx - mn)%F <> 0%F -> (steps - 1)%F <> 0%F ->
+    (gen_ruler_at K mn (gen_ruler_delta K steps mn mx) i / gen_ruler_delta K steps mn mx + gen_ruler_zerobin K steps mn mx)%F = i.
+  Proof.
+    intros H1 H2. unfold gen_ruler_at, gen_ruler_delta, gen_ruler_zerobin. field.
+    repeat split; try assumption; try (fld_nz K).
+    intro H. apply H1. assert (E : (mx - mn)%F = (- (mn - mx))%F) by ring. rewrite E, H. ring.
+  Qed.
+
+  Lemma rg_fsum_single (l : list Z) (f : Z -> K) kc :
+    NoDup l -> In kc l -> (forall k, In k l -> k <> kc -> f k = 0%F) -> fsum (map f l) = f kc.
+  Proof.
+    induction l as [|a l IH]; intros Hn Hi Hz; [destruct Hi|].
+    inversion Hn as [|a' l' Ha Hl]; subst. cbn [map fsum].
+    destruct (Z.eq_dec a kc) as [E|E].
+    - subst a. assert (Z0 : fsum (map f l) = 0%F).
+      { clear IH Hi Hn Hl. induction l as [|b l IH]; [reflexivity|]. cbn [map fsum].
+        rewrite IH. + rewrite (Hz b). * ring. * right; left; reflexivity. * intro Eb. apply Ha. left. exact Eb.
+        + intro Hb. apply Ha. right. exact Hb.
+        + intros k Hk. apply Hz. destruct Hk as [Hk|Hk]; [left; exact Hk|right; right; exact Hk]. }
+      rewrite Z0. ring.
+    - rewrite (Hz a (or_introl eq_refl) E). rewrite IH.
+      + ring. + exact Hl. + destruct Hi as [Hi|Hi]; [contradiction|exact Hi].
+      + intros k Hk. apply Hz. right. exact Hk.
+  Qed.
+
+  Lemma rg_zrange_nodup n : NoDup (zrange n).
+  Proof.
+    unfold zrange. generalize 0%nat. induction (Z.to_nat n) as [|m IH]; intros s; cbn [seq map]; constructor.
+    - intro H. apply in_map_iff in H. destruct H as [x [E Hx]]. apply in_seq in Hx. lia.
+    - apply IH.
+  Qed.
+
+  Lemma rg_unit_offcentre it i1 j1 : valid_it it -> 0 <= i1 < it -> 0 <= j1 < it -> (i1 <> centre it \/ j1 <> centre it) ->
+    (rx_nth (coeffs it (@f0 K)) i1 * rx_nth (coeffs it (@f0 K)) j1)%F = 0%F.
+  Proof.
+    intros Hv Hi Hj Hc. rewrite (coeffs_at_zero K it Hv).
+    destruct Hv as [Hv|[Hv|[Hv|Hv]]]; subst it; split_idx Hi; split_idx Hj; unfold centre in Hc; cbn in Hc;
+      try (exfalso; lia); unfold unit_at, rx_nth, centre; rewrite ?zrange1, ?zrange2, ?zrange3, ?zrange4; cbn;
+      change (Pos.to_nat 1) with 1%nat; change (Pos.to_nat 2) with 2%nat; change (Pos.to_nat 3) with 3%nat; cbn; ring.
+  Qed.
+  Lemma rg_unit_centre it : valid_it it ->
+    (rx_nth (coeffs it (@f0 K)) (centre it) * rx_nth (coeffs it (@f0 K)) (centre it))%F = 1%F.
+  Proof.
+    intros Hv. rewrite (coeffs_at_zero K it Hv).
+    destruct Hv as [Hv|[Hv|[Hv|Hv]]]; subst it; unfold unit_at, rx_nth, centre;
+      rewrite ?zrange1, ?zrange2, ?zrange3, ?zrange4; cbn;
+      change (Pos.to_nat 1) with 1%nat; change (Pos.to_nat 2) with 2%nat; change (Pos.to_nat 3) with 3%nat; cbn; ring.
+  Qed.
+
+  (** RotationMap with cos = 1, sin = 0 on axes for which at(i)/delta + zerobin = i: the row of grid point (x0, y0), applied
+      to any data, returns the data at (x0, y0) *)
+  Theorem rg_zero_angle_identity xs ys it (at0 at1 : Z -> K) d0 d1 z0 z1 x0 y0 (old : Z -> Z * K) (D : Z -> K) :
+    valid_it it -> 0 <= x0 < xs -> 0 <= y0 < ys -> xs * ys <= 2 ^ 32 ->
+    (at0 x0 / d0 + z0)%F = fz x0 -> (at1 y0 / d1 + z1)%F = fz y0 ->
+    fsum (map (fun k => let e := gen_rot_genHInfo K idK idK ipart fpart xs ys it (it * it) 1%F 0%F at0 at1 d0 d1 z0 z1 x0 y0 old k in
+                        (D (fst e) * snd e)%F) (zrange (it * it))) = D (x0 * ys + y0).
+  Proof.
+    intros Hv Hx Hy Hs Ex Ey.
+    assert (Hxs : 0 <= x0 < 2 ^ 32) by nia. assert (Hys : 0 <= y0 < 2 ^ 32) by nia.
+    set (kc := centre it * it + centre it).
+    assert (Hc : 0 <= centre it < it) by (destruct Hv as [H|[H|[H|H]]]; subst it; unfold centre; cbn; lia).
+    assert (Hkc : 0 <= kc < it * it) by (unfold kc; nia).
+    assert (Row : forall k, 0 <= k < it * it ->
+       gen_rot_genHInfo K idK idK ipart fpart xs ys it (it * it) 1%F 0%F at0 at1 d0 d1 z0 z1 x0 y0 old k =
+       rg_entry K idK xs ys it x0 y0 0%F 0%F (k / it) (k mod it)).
+    { intros k Hk. rewrite (rg_genHInfo_row K idK idK ipart fpart) by assumption. unfold rg_row.
+      rewrite rg_c1_zero, rg_c2_zero, Ex, Ey, !Hip, !Hfp. unfold rx_f2u. rewrite !rg_wrap32_small by assumption.
+      replace ((x0 <? xs) && (y0 <? ys)) with true by lia. reflexivity. }
+    rewrite (map_ext_in _ (fun k => let e := rg_entry K idK xs ys it x0 y0 0%F 0%F (k / it) (k mod it) in (D (fst e) * snd e)%F)).
+    2:{ intros k Hk. cbv zeta. rewrite Row; [reflexivity|]. unfold zrange in Hk. apply in_map_iff in Hk.
+        destruct Hk as [n [En Hn]]. apply in_seq in Hn. lia. }
+    rewrite (rg_fsum_single _ _ kc).
+    - cbv zeta. unfold kc. 
+      assert (Ed : (centre it * it + centre it) / it = centre it) by (rewrite Z.div_add_l by lia; rewrite Z.div_small by lia; lia).
+      assert (Em : (centre it * it + centre it) mod it = centre it) by (rewrite Z.add_comm, Z.mod_add by lia; apply Z.mod_small; lia).
+      rewrite Ed, Em. unfold rg_entry. cbv zeta.
+      replace (x0 + centre it - centre it) with x0 by lia. replace (y0 + centre it - centre it) with y0 by lia.
+      rewrite !rg_wrap32_small by assumption. replace ((x0 <? xs) && (y0 <? ys)) with true by lia.
+      cbn [fst snd]. unfold idK. rewrite (rg_unit_centre it Hv). rewrite rg_wrap32_small by nia. ring.
+    - apply rg_zrange_nodup.
+    - unfold zrange. apply in_map_iff. exists (Z.to_nat kc). split; [lia|]. apply in_seq. lia.
+    - intros k Hk Hne. cbv zeta.
+      assert (Hkr : 0 <= k < it * it).
+      { unfold zrange in Hk. apply in_map_iff in Hk. destruct Hk as [n [En Hn]]. apply in_seq in Hn. lia. }
+      destruct (rg_split_slot it k Hv Hkr) as [E [Hi Hj]].
+      assert (Hoff : k / it <> centre it \/ k mod it <> centre it).
+      { destruct (Z.eq_dec (k / it) (centre it)) as [A|A]; [|left; exact A].
+        destruct (Z.eq_dec (k mod it) (centre it)) as [B|B]; [|right; exact B].
+        exfalso. apply Hne. unfold kc. rewrite <- A at 1. rewrite <- B. exact E. }
+      unfold rg_entry. cbv zeta.
+      destruct ((wrap32 (x0 + k / it - centre it) <? xs) && (wrap32 (y0 + k mod it - centre it) <? ys)); cbn [fst snd].
+      + unfold idK. rewrite (rg_unit_offcentre it _ _ Hv Hi Hj Hoff). ring.
+      + ring.
+  Qed.
+End ZeroAngle.
